@@ -440,6 +440,9 @@ pub fn build_runtime() -> Runtime<roto::NoCtx> {
             }
             fn to_string(self) -> RotoString {
                 self.0.touch("to_string");
+                // an observable call: f-strings convert each part where it stands
+                let tag = self.0.tag;
+                log_with(|| Ev::Eff("Tr.to_string".into(), vec![V::i32(tag as i32)]));
                 RotoString::from(format!("Tr({})", self.0.tag))
             }
         }
